@@ -26,7 +26,7 @@ RULE = ("21 oriented models x shape parameters from each model's random generato
 ASSUMPTIONS = ["raw library functions are the model's own 1-D and 2-D functions",
                "each model is held to its own integration accuracy (observed convergence of both sides)"]
 REQUIRED_MONITORS = ["1d_is_spherical_average", "api_1d_is_average_of_2d", "integration_size_independent_where_resolved"]
-REQUIRED_BUCKETS = {"quick": ["special:two-lengths-equal", "special:one-length-comparable-to-another", "api:size-mesh>100", "sym:ac", "sym:abc", "qsize<1", "qsize>5", "deciding"]}
+REQUIRED_BUCKETS = {"quick": ["special:two-lengths-equal", "special:one-length-comparable-to-another", "api:q-not-in-increasing-order", "api:size-mesh>100", "sym:ac", "sym:abc", "qsize<1", "qsize>5", "deciding"]}
 REQUIRED_BUCKETS["thorough"] = REQUIRED_BUCKETS["quick"]
 
 _hi = {}
@@ -266,6 +266,16 @@ def run_case(case, rec):
         I2 = np.asarray(direct_model.call_kernel(model.make_kernel([qx, qy]), p2), float)
         avg = float(np.sum(w*I2)/2.0)
         I1 = float(direct_model.call_kernel(model.make_kernel([np.array([q])]), dict(pars, scale=1.0, background=0.0, **pdx))[0])
+        # the 1-D value through a data object whose q values are not listed in increasing order (two detector banks, a
+        # descending scan): value k belongs to q[k]
+        from sasmodels import data as sdata
+        qlist = np.array([q*1.31, q*1.07, q*0.62, q])
+        dmv = np.asarray(direct_model.DirectModel(sdata.empty_data1D(qlist), model)(**dict(pars, scale=1.0, background=0.0, **pdx)), float)
+        okd = len(dmv) == 4 and abs(dmv[3] - I1) <= 1e-6*abs(I1)        # (DirectModel's default cutoff 1e-5)
+        rec.check("api_1d_is_average_of_2d", okd,
+                  {"model": name, "q_listed": qlist, "note": "DirectModel on 1-D data listed in non-increasing order: the last element is the 1-D value at the last q listed",
+                   "returned": dmv, "one_d_at_last_q": I1})
+        rec.bucket("api:q-not-in-increasing-order")
         if pdx:
             rtol = max(rtol, 1e-4)       # 4 % wide size distributions: the converged quadratures stay converged
         one_hi = None
